@@ -97,6 +97,91 @@ def meta_of(psd):
     return mt, ids, abs(lc or 0)
 
 
+# ---- how other writers store a document: variants of an API-created document ---------------------
+STORES = ["plain", "merged-transparency-tag", "layers-in-Lr16-Lr32", "no-composite-flag"]      # + "unsaved" (make_api_doc)
+ALPHA_MODES = ["LA", "RGBA", "CMYKA"]
+
+
+def restage(psd, store, depth):
+    """the freshly saved document `psd`, re-stored the way Photoshop stores such documents, and reopened -> (document, bytes)
+      merged-transparency-tag : the Mtrn / Mt16 / Mt32 block that marks the first extra plane as the transparency of the merged
+                                image (the document keeps counting as transparent however many layers it has)
+      layers-in-Lr16-Lr32     : the layers of a 16 / 32-bit document live in the Lr16 / Lr32 block, the plain layer info is empty
+      no-composite-flag       : VersionInfo.has_composite = false (saved with 'maximize compatibility' off)"""
+    from psd_tools import PSDImage
+    from psd_tools.constants import Resource, Tag
+    from psd_tools.psd.base import EmptyElement
+    from psd_tools.psd.layer_and_mask import LayerInfo, LayerInfoBlock
+    from psd_tools.psd.tagged_blocks import TaggedBlock, TaggedBlocks
+    rec = psd._record
+    lmi = rec.layer_and_mask_information
+    if lmi.tagged_blocks is None:
+        lmi.tagged_blocks = TaggedBlocks()
+    if store == "merged-transparency-tag":
+        key = {8: Tag.SAVING_MERGED_TRANSPARENCY, 16: Tag.SAVING_MERGED_TRANSPARENCY16, 32: Tag.SAVING_MERGED_TRANSPARENCY32}[depth]
+        lmi.tagged_blocks[key] = TaggedBlock(key=key, data=EmptyElement())
+    elif store == "layers-in-Lr16-Lr32":
+        key = Tag.LAYER_16 if depth == 16 else Tag.LAYER_32
+        li = lmi.layer_info
+        lmi.tagged_blocks[key] = TaggedBlock(key=key, data=LayerInfoBlock(layer_count=li.layer_count, layer_records=li.layer_records,
+                                                                          channel_image_data=li.channel_image_data))
+        lmi.layer_info = LayerInfo()
+    elif store == "no-composite-flag":
+        rec.image_resources.get_data(Resource.VERSION_INFO).has_composite = False
+    elif store != "plain":
+        raise ValueError(store)
+    b = io.BytesIO()
+    rec.write(b)
+    raw = b.getvalue()
+    return PSDImage.open(io.BytesIO(raw)), raw
+
+
+def storage_class(psd):
+    """classification of a document by how it is stored, read from the record (not through the library's predicates):
+    {'no-composite'} when VersionInfo says there is no merged image; {'stays-transparent'} when the merged image has a plane
+    beyond the colour planes that keeps being the transparency after a structural edit (merged-transparency block, or layers
+    kept in Lr16 / Lr32 so that the plain layer count stays 0)"""
+    from psd_tools.constants import Resource, Tag
+    out = set()
+    try:
+        vi = psd.image_resources.get_data(Resource.VERSION_INFO)
+        if vi is not None and not vi.has_composite:
+            out.add("no-composite")
+        n = NCOLOR.get(psd.color_mode.name)
+        if n is not None and psd._record.header.channels > n:
+            mt, ids, lc = meta_of(psd)
+            tb = psd._record.layer_and_mask_information.tagged_blocks
+            deep = bool(tb) and any(k in tb for k in (Tag.LAYER_16, Tag.LAYER_32))
+            if not (ids and all(x > 0 for x in ids)) and (mt or (deep and lc == 0)):
+                out.add("stays-transparent")
+    except Exception:  # noqa  (classification only)
+        pass
+    return out
+
+
+def special_fixtures(fdir, quick, area_limit):
+    """fixtures (searched recursively) stored without a merged image or with a merged transparency that survives an edit:
+    the quick tier takes the three smallest of each class, the thorough tier all below the area limit"""
+    from psd_tools import PSDImage
+    found = {"no-composite": [], "stays-transparent": []}
+    for f in sorted(fdir.rglob("*.ps[db]")):
+        if f.stat().st_size > 400_000:
+            continue
+        try:
+            psd = PSDImage.open(f)
+        except Exception:  # noqa  (broken fixtures belong to C06)
+            continue
+        if psd.width * psd.height > area_limit:
+            continue
+        for c in storage_class(psd):
+            found[c].append((psd.width * psd.height, str(f.relative_to(fdir)), f))
+    out = []
+    for c, lst in found.items():
+        lst.sort(key=lambda x: x[:2])
+        out += [(c, f) for _, _, f in (lst[:3] if quick else lst)]
+    return out
+
+
 # ---- histories -------------------------------------------------------------------------------
 def apply_op(psd, op, rng, img_seed):
     """apply one operation of the public API; returns the model's name(s) for it or None when not applicable"""
@@ -242,6 +327,7 @@ def run_case(ctx, label, make_doc, ops, case, original_section=None):
         ctx.skipped.append(f"{label}: cannot build the document ({r[1]})")
         return "skipped"
     psd = r[1]
+    nocomp = "no-composite" in storage_class(psd)
     names = []
     results = []
     nsave = 0
@@ -256,7 +342,7 @@ def run_case(ctx, label, make_doc, ops, case, original_section=None):
                 names.append(a[1])
             continue
         nsave += 1
-        res, go_on = check_save(ctx, label, psd, names, case, original_section, nsave)
+        res, go_on = check_save(ctx, label, psd, names, case, original_section, nsave, nocomp)
         results.append(res)
         names.append("readSave")
         if not go_on:
@@ -265,7 +351,7 @@ def run_case(ctx, label, make_doc, ops, case, original_section=None):
     return "/".join(dict.fromkeys(results))
 
 
-def check_save(ctx, label, psd, names, case, original_section, nsave):
+def check_save(ctx, label, psd, names, case, original_section, nsave, nocomp=False):
     """save `psd` (whose history so far is `names`) and evaluate C17 on the file. -> (result, continue the history?)"""
     from psd_tools.api.numpy_io import has_transparency, get_transparency_index
     from psd_tools.composite import composite as np_composite
@@ -392,7 +478,7 @@ def check_save(ctx, label, psd, names, case, original_section, nsave):
         c1, _x, a1 = cap.calls[-1]
         f1 = c1.astype(np.float64) * a1 + (1.0 - a1)
         f2 = color2 * alpha2 + (1.0 - alpha2)
-        if c1.shape == color2.shape and (float(np.abs(f1 - f2).max()) > 1e-4 or float(np.abs(a1 - alpha2).max()) > 1e-4):
+        if c1.shape == color2.shape and not (float(np.abs(f1 - f2).max()) <= 1e-4 and float(np.abs(a1 - alpha2).max()) <= 1e-4):
             # same layers, same attributes, yet the document in memory renders differently from the reopened file:
             # derived render state of the edited tree is stale (the merged image is the in-memory rendering)
             clip = any(getattr(l, "clipping_layer", False) or getattr(l, "_clip_layers", None)
@@ -406,6 +492,11 @@ def check_save(ctx, label, psd, names, case, original_section, nsave):
     n = NCOLOR[cm]
     flat_comp = color2 * alpha2 + (1.0 - alpha2)
     transparent = nch > n and bool(has_transparency(p2))
+    semi = bool(((alpha2 > 0.02) & (alpha2 < 0.98)).any())
+    ctx.hist("edited_documents_compared_with_their_composite",
+             f"{cm}/depth{depth}/{'transparency plane kept' if transparent else 'extra plane not a transparency' if nch > n else 'no extra plane'}"
+             f"/{'semi-transparent result' if semi else 'result without partial alpha'}"
+             + ("/declared no composite before the edit" if nocomp else ""))
     lsb = 1.0 / 255 + 1e-6
     arr = _call(lambda: np.asarray(p2.numpy(), dtype=np.float64))
     if arr[0] == "err":
@@ -421,9 +512,11 @@ def check_save(ctx, label, psd, names, case, original_section, nsave):
         flat_re = a[:, :, :n]
         d_alpha = 0.0
     d_col = float(np.abs(flat_re - flat_comp).max())
-    ctx.hist("merged_vs_composite_lsb", min(int(round(max(d_col, d_alpha) * 255)), 9))
-    if d_col > lsb or d_alpha > lsb:
-        ctx.fail(f"C17/merged-vs-composite/{tag}/{'alpha' if d_alpha > lsb else 'colour'}-differs{later}",
+    worst = max(d_col, d_alpha)
+    # (a non-finite difference - garbage planes read back as float32 - is a difference)
+    ctx.hist("merged_vs_composite_lsb", min(int(round(worst * 255)), 9) if np.isfinite(worst) else "non-finite")
+    if not (d_col <= lsb and d_alpha <= lsb):
+        ctx.fail(f"C17/merged-vs-composite/{tag}/{'colour' if d_alpha <= lsb else 'alpha'}-differs{later}",
                  "numpy() of the reopened file differs from composite(force=True) of its layers by more than 1 LSB" + nth,
                  case, {"colour": d_col, "alpha": d_alpha}, "<= 1/255")
         result = "differs from composite"
@@ -450,11 +543,71 @@ def check_save(ctx, label, psd, names, case, original_section, nsave):
                 ref = color2
         tol = 2.0 / 255 + 1e-6      # 8-bit truncation in _create_image / matte removal on top of the stored rounding
         d = float(np.abs(fl - ref).max())
-        if d > tol:
+        if not d <= tol:
             ctx.fail(f"C17/merged-vs-composite/{tag}/topil-differs{later}",
                      "topil() of the reopened file differs from composite(force=True) of its layers" + nth, case, d, "<= 2/255")
             result = "differs from composite"
     return result, True
+
+
+class Probe:
+    """stands in for the run while a failing history is shrunk: same driver, failures recorded, nothing counted"""
+
+    def __init__(self, ctx):
+        self._ctx = ctx
+        self.failures, self.skipped, self.corr_cases = [], [], 0
+
+    def driver(self):
+        return self._ctx.driver()
+
+    def hist(self, *a, **k):
+        pass
+
+    disagree = count = hist
+
+    def fail(self, signature, what, input, observed=None, expected=None, how="search"):
+        self.failures.append(dict(signature=signature, what=what, observed=observed, expected=expected))
+
+
+def shrink_failures(ctx, n_before, make_doc, case, original_section, st):
+    """the failures this case added are re-reported on the shortest sub-history that still fails with the same signature"""
+    new = [f for f in ctx.failures[n_before:] if f["input"] is case]
+    for f in new:
+        if len(case["ops"]) <= 1 or st["shrunk"] >= 8:
+            continue
+        st["shrunk"] += 1
+
+        def fails(sub, f=f):
+            pr = Probe(ctx)
+            try:
+                run_case(pr, "shrink", make_doc, sub, dict(case, ops=sub), original_section)
+            except Exception:  # noqa
+                return None
+            hit = [x for x in pr.failures if x["signature"] == f["signature"]]
+            return hit[0] if hit else None
+        small = core.ddmin(case["ops"], lambda sub: fails(list(sub)) is not None)
+        if len(small) < len(case["ops"]):
+            hit = fails(list(small))
+            if hit:
+                f["input"] = dict(case, ops=list(small), shrunk_from=list(case["ops"]))
+                f["observed"], f["what"] = hit["observed"], hit["what"]
+
+
+def make_api_doc(mode, depth, comp, size, op_seed, store="plain"):
+    """a new document with one imported layer (alpha 0 / partial / 255, smaller than the canvas), saved and reopened - the
+    starting point of a history - optionally re-stored as `store` says -> (document, bytes of the file it was read from)"""
+    from psd_tools import PSDImage
+    from psd_tools.api.layers import PixelLayer
+    psd = PSDImage.new(mode, tuple(size), color=200 if depth == 8 else 0, depth=depth, compression=comp)
+    if store == "unsaved":
+        # the new document itself, never saved, without layers: the history's first save is the document's first save
+        return psd, None
+    im = pc.make_image("RGBA", max(1, size[0] - 1), max(1, size[1] - 1), op_seed % 100000)
+    psd.append(PixelLayer.frompil(im, psd, "base", 0, 0))
+    p, raw = pc.save_reopen(psd)
+    if store != "plain":
+        p, raw = restage(p, store, depth)
+    return p, raw
 
 
 # ---- the check -------------------------------------------------------------------------------
@@ -487,6 +640,7 @@ def run(ctx: core.Run):
         results.setdefault(key, {})
         results[key][res] = results[key].get(res, 0) + 1
 
+    shrink_st = {"shrunk": 0}
     corpus = core.VERIF / "harness" / "corpus" / "C17.json"
     corp = json.loads(corpus.read_text()) if corpus.exists() else []
 
@@ -494,7 +648,7 @@ def run(ctx: core.Run):
     api_cases = []
     for c in corp:
         if c.get("kind") == "api":
-            api_cases.append((c["mode"], c["depth"], Compression(c["compression"]), c["size"], c["ops"]))
+            api_cases.append((c["mode"], c["depth"], Compression(c["compression"]), c["size"], c["ops"], c.get("store", "plain")))
     for mode in DOC_MODES:
         for depth in (8, 16, 32):
             for comp in comps:
@@ -503,33 +657,54 @@ def run(ctx: core.Run):
                 k = rng.randrange(1, 4)
                 sops = ["append"] + [rng.choice(STRUCT_OPS + QUIET_OPS) for _ in range(k)]
                 qops = [rng.choice(QUIET_OPS) for _ in range(k + 1)]
-                api_cases.append((mode, depth, comp, size, sops))
-                api_cases.append((mode, depth, comp, size, qops))
+                api_cases.append((mode, depth, comp, size, sops, "plain"))
+                api_cases.append((mode, depth, comp, size, qops, "plain"))
                 # a history with more than one save: every file it writes is examined
-                api_cases.append((mode, depth, comp, size, two_save_history(rng)))
+                api_cases.append((mode, depth, comp, size, two_save_history(rng), "plain"))
     for mode in DOC_MODES:
         # the shapes that must be there whatever the seed draws
         for shape in ("edit-save-attr", "save-save", "attr-save-attr"):
-            api_cases.append((mode, 8, rng.choice(comps), (5, 4), two_save_history(rng, shape)))
+            api_cases.append((mode, 8, rng.choice(comps), (5, 4), two_save_history(rng, shape), "plain"))
+    # the same documents stored the way other writers store them (every mode x depth x storage that applies, whatever the
+    # seed draws): a merged transparency that survives the edit, layers in Lr16 / Lr32, no merged image declared - each with
+    # a structural edit, a quiet history and (thorough) a history with two saves
+    for mode in DOC_MODES:
+        for depth in (8, 16, 32):
+            for store in STORES[1:]:
+                if store == "merged-transparency-tag" and mode not in ALPHA_MODES:
+                    continue
+                if store == "layers-in-Lr16-Lr32" and depth == 8:
+                    continue
+                size = rng.choice([(4, 4), (5, 3), (3, 5)])
+                api_cases.append((mode, depth, rng.choice(comps), size, [rng.choice(["append", "insert", "pop-append", "rotate", "groupLayers"])], store))
+                api_cases.append((mode, depth, rng.choice(comps), size, ["append"] + [rng.choice(STRUCT_OPS + QUIET_OPS)], store))
+                if mode in ALPHA_MODES or store == "no-composite-flag":
+                    api_cases.append((mode, depth, rng.choice(comps), size, [rng.choice(QUIET_OPS[:-1]) for _ in range(2)], store))
+                if not quick:
+                    api_cases.append((mode, depth, rng.choice(comps), size, two_save_history(rng, "edit-save-attr"), store))
+                    api_cases.append((mode, depth, rng.choice(comps), size, two_save_history(rng), store))
+    # a document edited before its FIRST save (PSDImage.new, layers added, saved): that first file is examined too
+    for mode in DOC_MODES:
+        for depth in (8, 16, 32):
+            api_cases.append((mode, depth, rng.choice(comps), rng.choice([(4, 4), (5, 3)]), ["append"] + [rng.choice(STRUCT_OPS + QUIET_OPS[:-1])
+                                                                                         for _ in range(rng.randrange(0, 2))], "unsaved"))
+        api_cases.append((mode, 8, rng.choice(comps), (4, 3), [rng.choice(QUIET_OPS[5:])], "unsaved"))
     if not quick:
         for mode in DOC_MODES:
             for op in STRUCT_OPS:
-                api_cases.append((mode, 8, rng.choice(comps), (5, 4), ["append", op]))
-    for (mode, depth, comp, size, ops) in api_cases:
+                api_cases.append((mode, 8, rng.choice(comps), (5, 4), ["append", op], "plain"))
+    for (mode, depth, comp, size, ops, store) in api_cases:
         case = {"kind": "api", "mode": mode, "depth": depth, "compression": int(comp), "size": list(size), "ops": ops,
                 "op_seed": rng.randrange(1 << 30)}
+        if store != "plain":
+            case["store"] = store
 
-        def make(mode=mode, depth=depth, comp=comp, size=size, case=case):
-            import random
-            from psd_tools.api.layers import PixelLayer
-            psd = PSDImage.new(mode, tuple(size), color=200 if depth == 8 else 0, depth=depth, compression=comp)
-            # a document with one layer, saved and reopened: the starting point of the history
-            im = pc.make_image("RGBA", max(1, size[0] - 1), max(1, size[1] - 1), case["op_seed"] % 100000)
-            psd.append(PixelLayer.frompil(im, psd, "base", 0, 0))
-            p, raw = pc.save_reopen(psd)
-            case["_section"] = image_data_section(raw)[1:]
+        def make(mode=mode, depth=depth, comp=comp, size=size, case=case, store=store):
+            p, raw = make_api_doc(mode, depth, comp, size, case["op_seed"], store)
+            case["_section"] = image_data_section(raw)[1:] if raw is not None else None
             return p
-        ctx.count(("api", mode, depth, int(comp), tuple(size), tuple(ops)))
+        ctx.count(("api", mode, depth, int(comp), tuple(size), tuple(ops), store))
+        ctx.hist("api_storage", f"{store}/{mode}/depth{depth}")
         r0 = _call(make)
         if r0[0] == "err":
             ctx.fail(f"C17/save-raises/{mode}-depth{depth}/{r0[1]}", f"saving a new {mode} document with one layer raises {r0[1]}: {r0[2]}",
@@ -537,8 +712,11 @@ def run(ctx: core.Run):
             note(f"api {mode}/{depth}", "save raises " + r0[1])
             continue
         section = case.pop("_section")
+        nf = len(ctx.failures)
         res = run_case(ctx, f"api {mode}/{depth}", lambda r0=r0: r0[1], ops, case, original_section=section)
-        note(f"api {mode}/{depth}", res)
+        if len(ctx.failures) > nf:
+            shrink_failures(ctx, nf, lambda a=(mode, depth, comp, size, case["op_seed"], store): make_api_doc(*a)[0], case, section, shrink_st)
+        note(f"api {mode}/{depth}" + ("" if store == "plain" else f" [{store}]"), res)
     ctx.sample({"api_case": {k: v for k, v in case.items()}})
 
     # ---------------- documents read from files
@@ -547,14 +725,21 @@ def run(ctx: core.Run):
         files = [fdir / n for n in FIXTURES_QUICK if (fdir / n).exists()]
     else:
         files = [f for f in sorted(fdir.glob("*.ps[db]")) if f.stat().st_size < 400_000]
+    area_limit = 160 * 160 if quick else 400 * 400
+    special = {}
+    for cls, f in special_fixtures(fdir, quick, area_limit):
+        special.setdefault(f, set()).add(cls)
+        ctx.hist("fixture_storage_class", f"{cls}: {f.relative_to(fdir)}")
+    files += [f for f in special if f not in files]
     for f in files:
         raw0 = f.read_bytes()
+        rel = str(f.relative_to(fdir))
         try:
             fh, comp0, data0 = image_data_section(raw0)
         except Exception as e:  # noqa
-            ctx.skipped.append(f"{f.name}: cannot locate the image-data section ({e})")
+            ctx.skipped.append(f"{rel}: cannot locate the image-data section ({e})")
             continue
-        if fh["width"] * fh["height"] > (160 * 160 if quick else 400 * 400):
+        if fh["width"] * fh["height"] > area_limit:
             continue
         hist = [[rng.choice(["pop-append", "rotate", "remove", "groupLayers"])],
                 [rng.choice(QUIET_OPS[:-1]) for _ in range(2)], ["append"],
@@ -562,11 +747,17 @@ def run(ctx: core.Run):
         if not quick:
             hist += [[rng.choice(STRUCT_OPS)], [rng.choice(STRUCT_OPS), rng.choice(QUIET_OPS)], [rng.choice(QUIET_OPS)] * 2,
                      ["readSave"] + [rng.choice(QUIET_OPS)], two_save_history(rng), two_save_history(rng, "edit-save-attr")]
+        if f in special:
+            # whatever the seed draws: an appended translucent layer and a reordering on these documents
+            hist += [["append"], ["insert", "setOpacity"]]
         for ops in hist:
-            case = {"kind": "fixture", "fixture": f.name, "ops": ops, "op_seed": rng.randrange(1 << 30)}
-            ctx.count(("fixture", f.name, tuple(ops)))
-            res = run_case(ctx, f.name, lambda f=f: PSDImage.open(f), ops, case, original_section=(comp0, data0))
-            note(f"file {fh['mode']}/ch{fh['channels']}/d{fh['depth']}", res)
+            case = {"kind": "fixture", "fixture": rel, "ops": ops, "op_seed": rng.randrange(1 << 30)}
+            ctx.count(("fixture", rel, tuple(ops)))
+            nf = len(ctx.failures)
+            res = run_case(ctx, rel, lambda f=f: PSDImage.open(f), ops, case, original_section=(comp0, data0))
+            if len(ctx.failures) > nf:
+                shrink_failures(ctx, nf, lambda f=f: PSDImage.open(f), case, (comp0, data0), shrink_st)
+            note(f"file {fh['mode']}/ch{fh['channels']}/d{fh['depth']}" + "".join(f" [{c}]" for c in sorted(special.get(f, ()))), res)
     ctx.sample({"fixture_case": case})
 
     # ---------------- geometry of get_data vs the model, by lengths
@@ -599,7 +790,13 @@ def run(ctx: core.Run):
         "(append/insert/extend/setitem/delitem/remove/pop/clear/move/group ...) or does not (attribute edits, read-only "
         "operations, an intermediate save) touch the structure, and histories with several saves (edit* ; save ; "
         "attribute-edit* ; save, save ; save, attribute-edit ; save ; attribute-edit, edit ; save ; edit, three saves) "
-        "where EVERY file written is examined; documents of the test corpus with the same kinds of history. "
+        "where EVERY file written is examined; the same API-created documents re-stored the way other writers store them, whatever "
+        "the seed draws: with a merged-transparency block (Mtrn / Mt16 / Mt32; modes with an extra plane: the document stays "
+        "transparent after the edit, and the imported layer has alpha 0 / partial / 255), with the layers in Lr16 / Lr32 (16 / 32 bit), "
+        "with VersionInfo.has_composite = false, each x every mode x depth with a structural edit and a quiet history; documents of the "
+        "test corpus with the same kinds of history, among them (searched recursively, classified from the record: "
+        "histograms.fixture_storage_class) those stored without a merged image and those whose merged transparency survives an edit. "
+        "Failing histories are shrunk (ddmin over the operations, same signature). "
         "Each case = (document, history); distinct = distinct (document configuration, history) tuples."
     )
     ctx.model_coverage = {
@@ -634,12 +831,16 @@ def replay(ctx, data):
     print("replaying", data.get("signature"))
     if inp.get("kind") == "api":
         def make():
-            psd = PSDImage.new(inp["mode"], tuple(inp["size"]), color=200 if inp["depth"] == 8 else 0, depth=inp["depth"],
-                               compression=Compression(inp["compression"]))
-            im = pc.make_image("RGBA", max(1, inp["size"][0] - 1), max(1, inp["size"][1] - 1), inp["op_seed"] % 100000)
-            psd.append(PixelLayer.frompil(im, psd, "base", 0, 0))
-            return pc.save_reopen(psd)[0]
-        print("result:", run_case(ctx, "replay", make, inp["ops"], inp))
+            p, raw = make_api_doc(inp["mode"], inp["depth"], Compression(inp["compression"]), inp["size"], inp["op_seed"],
+                                  inp.get("store", "plain"))
+            sec.append(image_data_section(raw)[1:] if raw is not None else None)
+            return p
+        sec = []
+        r0 = _call(make)
+        if r0[0] == "err":
+            print("building the document raises", r0[1:])
+            return 0
+        print("result:", run_case(ctx, "replay", lambda: r0[1], inp["ops"], inp, original_section=sec[0]))
     elif inp.get("kind") == "fixture":
         f = core.REPO / "tests" / "psd_files" / inp["fixture"]
         sec = image_data_section(f.read_bytes())[1:]
